@@ -672,6 +672,19 @@ func (w *joeWorld) doShutdown(sd *joeShutdown) {
 }
 
 func (w *joeWorld) publish(pm *pubMsg) {
+	if w.ch.Chance(1, 16, "publish without topics first") {
+		// no topics: ErrNoTopic, and nothing may happen
+		before := len(w.rep.puts)
+		for _, topics := range [][]string{nil, {}} {
+			if err := w.j.Publish(pm.msg, topics); !errors.Is(err, sse.ErrNoTopic) {
+				w.o.violate("C03", "no-topic", "Publish(%s) without topics returned %v, want ErrNoTopic", pm.tag, err)
+			}
+		}
+		if len(w.rep.puts) != before {
+			w.o.violate("C03", "no-topic", "a Publish without topics reached the replayer")
+		}
+		w.o.probe("Publish without topics")
+	}
 	if w.curPub == nil {
 		w.curPub = map[*sse.Message]*pubMsg{}
 	}
